@@ -1,4 +1,5 @@
 import ObiVerif.Model.Lcs
+import ObiVerif.Model.LcsBuf
 import ObiVerif.Driver.Util
 /-! line protocol for C09 (see harness/c09.go for the ops) -/
 namespace ObiVerif.Driver.C09
@@ -18,6 +19,31 @@ def runLcs (a b : Seq) (e : Int) (egf : Bool) (fill : Option UInt64) : Except Er
     | some (s', l') => if s = s' ∧ l = l' then .ok (s, l, en) else .error .fuel
     | none => if s = -1 ∧ l = -1 then .ok (s, l, en) else .error .fuel
   | .error e => .error e
+
+/-- `lcsseq` : groups of four words `A B e egf` -/
+def parseCalls : List String → Option (List (Seq × Seq × Int × Bool))
+  | [] => some []
+  | a :: b :: e :: egf :: rest =>
+    match unhex a, unhex b, e.toInt?, parseCalls rest with
+    | some a, some b, some e, some r =>
+      if e < -1 ∨ (egf ≠ "0" ∧ egf ≠ "1") then none else some ((a, b, e, egf == "1") :: r)
+    | _, _, _, _ => none
+  | _ => none
+
+/-- one result of a history; with endgapfree = false it must also agree with the structural layer -/
+def showSeqItem (c : Seq × Seq × Int × Bool) (r : Except Err (Int × Int × Int)) : String :=
+  match r with
+  | .ok (s, l, en) =>
+    if c.2.2.2 then s!"{s},{l},{en}" else
+    match bandLCS c.1 c.2.1 c.2.2.1 with
+    | some (s', l') => if s = s' ∧ l = l' then s!"{s},{l},{en}" else "layer-mismatch"
+    | none => if s = -1 ∧ l = -1 then s!"{s},{l},{en}" else "layer-mismatch"
+  | .error .panic => "panic"
+  | .error .fuel => "layer-mismatch"
+
+def zipShow : List (Seq × Seq × Int × Bool) → List (Except Err (Int × Int × Int)) → List String
+  | c :: cs, r :: rs => showSeqItem c r :: zipShow cs rs
+  | _, _ => []
 
 def showD1 (d : D1) : String := s!"{d.verdict} {d.pos} {d.a1.toNat} {d.a2.toNat}"
 
@@ -58,6 +84,10 @@ def run (line : String) : String :=
       if e < -1 ∨ (egf ≠ "0" ∧ egf ≠ "1") then "bad-op" else
       showLcs (runLcs a b e (egf == "1") fill)
     | _, _, _, _ => "bad-op"
+  | "lcsseq" :: rest =>
+    match parseCalls rest with
+    | some calls => if calls.isEmpty then "bad-op" else joinSp (zipShow calls (lcsHistory calls #[]))
+    | none => "bad-op"
   | ["d1", a, b] =>
     match unhex a, unhex b with
     | some a, some b => showD1E (runD1 a b)
